@@ -23,6 +23,7 @@ type Control struct {
 	Contains string // substring of the construct expected in the finding
 	Negative bool   // the mutant preserves the property: the rule must stay silent
 	Nth      int    // replace the Nth occurrence of Find (1-based); 0 = Find must occur exactly once
+	Append   string // appended to the file (a helper function the replacement calls)
 }
 
 // applyControl returns the mutated file content, or "" when the control does not apply.
@@ -32,7 +33,7 @@ func applyControl(c *Control, src string) string {
 		if n != 1 {
 			return ""
 		}
-		return strings.Replace(src, c.Find, c.Replace, 1)
+		return strings.Replace(src, c.Find, c.Replace, 1) + c.Append
 	}
 	if n < c.Nth {
 		return ""
@@ -47,7 +48,7 @@ func applyControl(c *Control, src string) string {
 		idx = from + j
 		from = idx + len(c.Find)
 	}
-	return src[:idx] + c.Replace + src[idx+len(c.Find):]
+	return src[:idx] + c.Replace + src[idx+len(c.Find):] + c.Append
 }
 
 var controls []Control
